@@ -7,5 +7,8 @@ ctest --test-dir /repo/_build -j8 --timeout 900 > /tmp/baseline_ctest.log 2>&1
 failed=$(grep -h "^\[  FAILED  \] [A-Za-z]*\.[A-Za-z0-9_]* (" /repo/_build/Testing/Temporary/LastTest.log | sed 's/^\[  FAILED  \] \([^ ]*\) .*/\1/' | sort -u | tr '\n' ' ')
 passed=$(grep -c "^\[       OK \]" /repo/_build/Testing/Temporary/LastTest.log)
 expected="Parser.invalidXMLElements Printer.mathMLInResetWithSyntaxError Printer.mathMLWithSyntaxError "
-echo "passed gtest cases: $passed; failed: $failed"
+crashed=$(grep -c "(SEGFAULT)\|(Subprocess aborted)\|(Timeout)\|(ILLEGAL)\|(BAD_COMMAND)\|(Not Run)" /tmp/baseline_ctest.log)
+nfailbin=$(grep -c "^\s*[0-9]* - .* (" /tmp/baseline_ctest.log)
+echo "passed gtest cases: $passed; failed: $failed; failing ctest binaries: $nfailbin (crashed/timeout: $crashed)"
+if [ "$crashed" != "0" ] || [ "$nfailbin" != "2" ]; then echo "BASELINE DIFFERS (a test binary crashed or an unexpected binary failed)"; grep "^\s*[0-9]* - " /tmp/baseline_ctest.log; exit 1; fi
 if [ "$failed" == "$expected" ]; then echo "BASELINE OK"; exit 0; else echo "BASELINE DIFFERS (expected: $expected)"; exit 1; fi
